@@ -107,7 +107,21 @@ def countLoopExempt : List (String × String × String) := [
     buffer (or builds an item from it) in every iteration — so it consumes at least one byte or raises
     `struct.error` at the end of the buffer — or iterates over data that was already read. -/
 theorem count_loops_consume :
-    ∀ l ∈ countLoops, l.2.2.2 = true ∨ (l.1, l.2.1, l.2.2.1) ∈ countLoopExempt := by decide +kernel
+    ∀ l ∈ countLoops, l.2.2.2.1 = true ∨ (l.1, l.2.1, l.2.2.1) ∈ countLoopExempt := by decide +kernel
+
+/-- count loops whose body repositions the buffer itself (found by the translator), each read by hand:
+    all three seek FORWARD past what the iteration just read, so consumption stays sequential -/
+def countLoopSeeks : List (String × String × String) := [
+  (DEXF, "ClassHDefItem.__init__", "0,size"),    -- `idx = buff.tell(); ClassDefItem(buff); buff.seek(idx + 32)`: 32 bytes per iteration
+  (DEXF, "CodeItem.__init__", "0,size"),         -- after a DalvikCode: `buff.seek(off + (4 - off % 4))`, alignment padding forward
+  (DEXF, "MapList.__init__", "0,self.size")      -- `buff.seek(idx + mi.get_length())`: 12 bytes per iteration (Loops.mapListLoop)
+]
+
+/-- **Sequential vs. repositioned reads.** A count loop whose body calls `seek` does not consume the buffer
+    sequentially by construction; every such loop is in the hand-read list above (forward seeks only).  Reads
+    at absolute offsets made *inside* item constructors are not visible to this scan. -/
+theorem count_loops_seek_audited :
+    ∀ l ∈ countLoops, l.2.2.2.2 = true → (l.1, l.2.1, l.2.2.1) ∈ countLoopSeeks := by decide +kernel
 
 /-- **Regular expressions.** Every `re.*` call that gen/loops.py finds in the three parser modules uses a
     pattern whose text is in the hand-audited list of linear-time patterns (Model/Loops.lean, one reason
